@@ -77,6 +77,8 @@ class C20(PropCheck):
                                         "ok" if run.get("ok") else "raised")
             acc[key] = acc.get(key, 0) + 1
             acc["backend:snapshots-in-coq"] = acc.get("backend:snapshots-in-coq", 0) + len(run.get("snaps", []))
+            if case.get("modulated"):
+                acc["backend:with_modulation"] = acc.get("backend:with_modulation", 0) + 1
             k2 = "backend:times:%s:rate=%s:%s" % ("Full" if case["dflt"] == "Full" else "list", case.get("rate", 1.0),
                                                 "own-times" if any(o["own"] is not None for o in case["obs"]) else "default-only")
             acc[k2] = acc.get(k2, 0) + 1
